@@ -4,6 +4,7 @@ package semverops
 
 import (
 	"fmt"
+	"sort"
 	"strings"
 
 	"deps.dev/util/semver"
@@ -153,6 +154,38 @@ func Exec(f []string) (string, bool) {
 			}
 			fmt.Fprintf(&b, " %d%d%d%d%d%d", b2i(a2.Set().MatchVersion(v)), b2i(b2.Set().MatchVersion(v)), b2i(s.MatchVersion(v)),
 				b2i(a2.MatchVersionPrerelease(fresh)), b2i(b2.MatchVersionPrerelease(fresh)), rpm)
+		}
+		return b.String(), true
+	case "sortcls": // sortcls <Sys> <hex>... : sort with System.Compare; print the sequence of equivalence classes
+		sys, ok := SysNames[f[1]]
+		if !ok {
+			return "bad-op", true
+		}
+		var vs []string
+		for _, h := range f[2:] {
+			vs = append(vs, fw.Unhx(h))
+		}
+		sort.Slice(vs, func(i, j int) bool { return sys.Compare(vs[i], vs[j]) < 0 })
+		var classes [][]string
+		for i, v := range vs {
+			if i > 0 && sys.Compare(vs[i-1], v) == 0 {
+				classes[len(classes)-1] = append(classes[len(classes)-1], v)
+			} else {
+				classes = append(classes, []string{v})
+			}
+		}
+		var b strings.Builder
+		b.WriteString("ok")
+		for _, c := range classes {
+			sort.Strings(c)
+			b.WriteString(" [")
+			for i, v := range c {
+				if i > 0 {
+					b.WriteString(",")
+				}
+				b.WriteString(fw.Hx(v))
+			}
+			b.WriteString("]")
 		}
 		return b.String(), true
 	case "diff":
